@@ -569,6 +569,11 @@ func TestC26InProc(t *testing.T) {
 			}
 
 			for li := range layouts {
+				// the filepath functions only compute strings: one layout is enough in the quick tier
+				if li > 0 && vh.Tier() == "quick" && strings.HasPrefix(tpl.Name, "filepath.") {
+					continue
+				}
+
 				for ki, kind := range tpl.Kinds {
 					n := nSpell
 					if ki > 0 {
